@@ -65,3 +65,37 @@ func VerifHarness_C16_O3() {
 	}
 	verifReach("end")
 }
+
+// C16/O3b — reads keep an event alive in the cache: with a cache of two
+// entries, an event that was just read is not the one evicted by the next
+// insertion (the consensus methods rely on re-reading old root events).
+func VerifHarness_C16_O3b() {
+	vn := verifNewNet(3, 2)
+	st := vn.store
+	a := vn.mkEvent(0, "", "", 0, nil)
+	b := vn.mkEvent(1, "", "", 0, nil)
+	c := vn.mkEvent(2, "", "", 0, nil)
+	if err := st.SetEvent(a); err != nil {
+		panic(err)
+	}
+	if err := st.SetEvent(b); err != nil {
+		panic(err)
+	}
+	which := verifChoice("readFirst", 2)
+	kept, evicted := a, b
+	if which == 1 {
+		kept, evicted = b, a
+	}
+	_, err := st.GetEvent(kept.Hex())
+	verifAssert("read-ok", err == nil)
+	if err := st.SetEvent(c); err != nil {
+		panic(err)
+	}
+	_, e1 := st.GetEvent(kept.Hex())
+	_, e2 := st.GetEvent(evicted.Hex())
+	_, e3 := st.GetEvent(c.Hex())
+	verifAssert("recently-read-event-still-cached", e1 == nil)
+	verifAssert("least-recently-used-event-evicted", cm.IsStore(e2, cm.KeyNotFound))
+	verifAssert("new-event-cached", e3 == nil)
+	verifReach("end")
+}
